@@ -57,17 +57,17 @@ def expand (i : Nat) (j : Json) : Except String (List (Nat × Call)) := do
   else
     pure [(i, ← parseCall j)]
 
-/-- request: {"seeds":[seed…], "hist":[{"i":inst, "op":…}…]} → outputs of `crun` (method calls, module
-re-seeding, pickling) and, per instance, of `crunOne` on its own calls (the spec side of the frame
+/-- request: {"seeds":[seed…], "hist":[{"i":inst, "op":…}…]} → outputs of `crunW stepE` (method calls with the
+exact error paths, module re-seeding, pickling) and, per instance, of `crunOneW stepE` on its own calls (the spec side of the frame
 property). -/
 def handle (req : Json) : Except String Json := do
   let seeds ← (← arr (← field req "seeds")).mapM parseSeed
   let hist := (← (← arr (← field req "hist")).mapM (fun j => do
     let i ← nat (← field j "i"); expand i j)).flatten
   let st : Nat → Inst := fun i => fresh (seeds.getD i 0)
-  let outs := crun st hist
+  let outs := crunW stepE st hist
   let alone := (List.range seeds.length).map (fun i =>
-    crunOne (st i) ((hist.filter (·.1 = i)).map (·.2)))
+    crunOneW stepE (st i) ((hist.filter (·.1 = i)).map (·.2)))
   pure (obj [("model", ofList (fun (p : Nat × Out) => Json.arr #[ofNat p.1, outToJson p.2]) outs),
              ("alone", ofList (ofList outToJson) alone),
              ("states", ofList ofNat seeds)])
